@@ -436,6 +436,9 @@ def verify_function(model: Model, contract: Contract, timeout_ms=None, max_paths
     for ob in all_obs:
         if getattr(ob, "presolved", None):
             st, mdl, be, dt, why = ob.presolved
+        elif ob.kind in ("gen-complete", "gen-distinct") and (timeout_ms or QUICK_TIMEOUT_MS) <= 30000:
+            # generator-level VCs are solved in the (sequential) enumeration phase: smaller budget in the quick tier
+            st, mdl, be, dt, why = solve(ob.pc, ob.formula, 6000)
         else:
             st, mdl, be, dt, why = solve(ob.pc, ob.formula, timeout_ms)
         ob.status, ob.model, ob.backend, ob.seconds, ob.reason = st, mdl, be, dt, why
